@@ -22,6 +22,7 @@ EXPLANATION = (
     "for common blocks. R5: types are correlated in extension order (toposort over resolved parents, "
     "looked up after host/USE merging). Designation of the right entity on every program is not decided."
     " R6: declarations local to BLOCK/ASSOCIATE constructs stay out of the enclosing scope's tables. R7 (shared with C06.R3): importers are correlated after their exporters."
+    " Added after waves 6/7 - scope tables are read by key; external modules export under their local names."
 )
 ASSUMPTIONS = ["dict writes are subscript stores, update, setdefault, pop, clear, del"]
 
@@ -417,21 +418,31 @@ def r9_inherited_bindings_are_copies(ctx, rep):
 
 # ------------------------------------------------------------------ scope tables are read by key
 def _name_search_helpers(py) -> set:
-    """functions that look an entity up by its own name: they iterate their first parameter and compare `<item>.name` with
-    another parameter (`_find_in_list`)"""
+    """functions that look an entity up by its own name: they iterate their first parameter (directly or through a local
+    filtered from it) and compare `<item>.name` with another parameter (or a local derived from one) - `_find_in_list`"""
     out = set()
     for _m, fn in py.all_functions():
         ps = [a.arg for a in fn.args.args]
         if len(ps) < 2:
             continue
+
+        def derived(seeds: set) -> set:
+            names = set(seeds)
+            for _ in range(3):
+                for st in ast.walk(fn):
+                    if isinstance(st, ast.Assign) and len(st.targets) == 1 and isinstance(st.targets[0], ast.Name) and \
+                            any(isinstance(x, ast.Name) and x.id in names for x in ast.walk(st.value)):
+                        names.add(st.targets[0].id)
+            return names
+        colls, keys = derived({ps[0]}), derived(set(ps[1:]))
         for lp in ast.walk(fn):
-            if isinstance(lp, (ast.For, ast.comprehension)) and isinstance(lp.iter, ast.Name) and lp.iter.id == ps[0] and \
+            if isinstance(lp, (ast.For, ast.comprehension)) and isinstance(lp.iter, ast.Name) and lp.iter.id in colls and \
                     isinstance(lp.target, ast.Name):
                 it = lp.target.id
                 for c in ast.walk(fn):
                     if isinstance(c, ast.Compare) and any(
                             isinstance(a, ast.Attribute) and a.attr == "name" and isinstance(a.value, ast.Name) and a.value.id == it
-                            for a in ast.walk(c)) and any(isinstance(n, ast.Name) and n.id in ps[1:] for n in ast.walk(c)):
+                            for a in ast.walk(c)) and any(isinstance(n, ast.Name) and n.id in keys for n in ast.walk(c)):
                         out.add(fn.name)
     return out
 
@@ -519,6 +530,13 @@ def r10_tables_read_by_key(ctx, rep):
         raise AnalysisError(f"only {reads} keyed reads of the scope tables / helpers {sorted(helpers)} found")
 
 
+def r11_external_tables_keep_local_names(ctx, rep):
+    """use association through an *external* module goes by the local names under which that module exports (shared with
+    C06.R5 / C16.R2)"""
+    from . import c06
+    c06.r5_externalised_tables(ctx, rep)
+
+
 RULES = [
     RuleSpec("C07.R6", r6_block_scope, "block-local declarations stay out of the enclosing scope", floor=4),
     RuleSpec("C07.R7", r7_use_is_complete_when_read, "importers are correlated after their exporters (shared with C06.R3)", floor=5),
@@ -530,4 +548,5 @@ RULES = [
     RuleSpec("C07.R9", r9_inherited_bindings_are_copies, "inherited generic bindings do not share their binding list with the base type", floor=1),
     RuleSpec("C07.R8", r8_tables_not_shrunk, "scope tables are only extended", floor=1),
     RuleSpec("C07.R10", r10_tables_read_by_key, "scope tables are read by key, never searched by entity name", floor=1),
+    RuleSpec("C07.R11", r11_external_tables_keep_local_names, "external modules export under their local names (shared with C06.R5)", floor=2),
 ]
